@@ -1049,6 +1049,9 @@ func (e *Engine) applyContract(s *State, x ssa.CallInstruction, fn *ssa.Function
 			fams = append(fams, f)
 		}
 	}
+	if len(fams) > 0 && !(ct.framed && len(ct.frameExcept) == 0) && s.currentMapLoop() != nil {
+		e.detOblige(s, x, "callee-effects", func(ren, memo map[*Term]*Term) *Term { return False })
+	}
 	ver := e.nextVer()
 	var wm, wmpost *Term
 	if ct.framed {
